@@ -290,6 +290,17 @@ Theorem C16_whitespace_replace : forall (U : uni), ascii_ok U ->
 Proof. exact ws_replace_bytes. Qed.
 Print Assumptions C16_whitespace_replace.
 
+(* in particular the kinds are the same *)
+Theorem C16_whitespace_replace_kinds : forall (U : uni), ascii_ok U ->
+  forall (xb ws1 ws2 bb : list byte),
+    Forall (fun b => (9 <= bz b <= 13)%Z \/ bz b = 32%Z) ws1 -> Forall (fun b => (9 <= bz b <= 13)%Z \/ bz b = 32%Z) ws2 ->
+    ws1 <> [] -> ws2 <> [] ->
+  forall (pre : list token) (t : token) (post : list token),
+    fst (lex_with U (xb ++ ws1 ++ bb)) = pre ++ t :: post -> post <> [] -> tk_end t = length xb ->
+    map tk_kind (fst (lex_with U (xb ++ ws2 ++ bb))) = map tk_kind (fst (lex_with U (xb ++ ws1 ++ bb))).
+Proof. exact ws_replace_kinds. Qed.
+Print Assumptions C16_whitespace_replace_kinds.
+
 (* a token that starts behind the white space has the same text whatever the white space is *)
 Theorem C16_whitespace_text : forall (xb ws bb : list byte) (u : token), length xb <= tk_start u ->
   tk_text (xb ++ ws ++ bb) (tk_kind u, tk_start u + length ws, tk_end u + length ws) = tk_text (xb ++ bb) u.
